@@ -9,6 +9,12 @@ NOTE_COMMON = ('Trusted base: clang 14 parser/sema/CFG builder; class-hierarchy 
 
 CHECKS = {
     # id: (technique, level text, undecided clauses)
+    'C12': ('call-graph who-calls rule for the single matcher; linear normal form of token guards and a confirmed table of skip/start/last-token combinations in the sibling scanner loops; structural fingerprint + decision-feature comparison of the two matcher copies; normalisation-feature extraction at every trie lookup',
+            'Decides that interpreter, validator and debugger share one matcher, that every whitespace-splitting scanner (incl. the copies shipped for generated C) takes every non-empty token, that the shipped copy of the matcher has the same decision features, and that Promela and VHDL normalise descriptors alike before static resolution.',
+            'Not decided: the relation nameMatch computes on all strings (needs execution or a solver).'),
+    'C15': ('table extraction from if-chains/switches (escape, unescape, jsmn accept sets) compared as relations; forward must-analysis of container non-emptiness on the CFG of Data::fromJSON; linear-form comparison of allocation size and parser capacity',
+            'Decides for all byte values that the JSON escape writer, the unescape reader and the jsmn string scanner agree on every escaped character, that Data::fromJSON never peeks or pops an empty stack on any CFG path, and that the sentinel token the walker relies on is kept.',
+            'Not decided: equality of round-tripped Data trees for all values; absence of out-of-bounds inside jsmn.c itself; Event<->Data agreement is decided under C14.'),
     'C20': ('type-resolved AST queries over the transformer call-graph closure (pointer insertion, address-ordered iteration, nondeterminism sources) + CFG must-pass-through for the cache guard',
             'Decides for all documents at once that no pointer value, address-ordered container iteration, address-based sort or other nondeterminism source feeds transformer output, and that cache files have no unguarded consumer.',
             'Not decided: std::hash stability (assumed), trace determinism of the interpreter beyond address-ordered iteration in the engines (thorough).'),
